@@ -61,6 +61,30 @@ func runCase(phase string, i int) worker.Result {
 	if c.API == "ExtendedCopyGraph" && c.SrcKind == "remote" {
 		c.SrcKind = "memory"
 	}
+	if c.API == "ExtendedCopyGraph" {
+		// a depth limit or a filter makes roots that are successors of other roots
+		c.Depth = []int{0, 0, 1, 2}[rng.IntN(4)]
+		if rng.IntN(3) == 0 {
+			c.FilterAnno = []string{"org.test.salt", "org.test.kind"}[rng.IntN(2)]
+			res.Count("extended_cases_with_annotation_filter", 1)
+		}
+		if c.Depth > 0 {
+			res.Count("extended_cases_with_depth_limit", 1)
+		}
+		if rng.IntN(2) == 0 {
+			// start low: at the node with the most direct predecessors, so that the upward walk (and a
+			// filter reading each predecessor's manifest) has something to do
+			best := c.Root
+			for _, nd := range c.G.Nodes {
+				if len(c.G.Preds(nd.ID)) > len(c.G.Preds(best)) {
+					best = nd.ID
+				}
+			}
+			c.Root, c.Expect = best, best
+			res.Count("extended_cases_started_at_most_referenced_node", 1)
+			res.MaxOf("max_direct_predecessors_of_start_node", int64(len(c.G.Preds(best))))
+		}
+	}
 	c.Conc = []int{0, 1, 2, 3, 4, 5, 6, 7, 8}[rng.IntN(9)]
 	if c.Delay == 0 {
 		c.Delay = 300 * time.Microsecond
